@@ -278,7 +278,7 @@ def solve(algo, family, pres, twice=False, after_other=False, inplace=False, via
         fn = reconcile_thl if algo == "thl" else L.SOLVERS[algo][0]
         if after_algos:
             # every other algorithm of the package that accepts this input has been run on the SAME input object before
-            others = {"plain": ("lca", "thl", "exh"), "ordered": ("lca", "thl", "base_spfs", "ext_spfs"),
+            others = {"plain": ("lca", "thl", "exh"), "ordered": ("lca", "thl", "base_spfs", "ext_spfs", "superdtl", "base_uspfs"),
                       "unordered": ("lca", "thl", "base_uspfs", "superdtl")}[family]
             for other in others:
                 if other == algo:
